@@ -90,6 +90,8 @@ namespace {
         FeldmanAdapter() : s( HeadBits, ArrayBits ) {}
         static unsigned supports() { return M_INS | M_INSF | M_EMP | M_UPD | M_UPDNI | M_ERS | M_ERSF | M_EXT | M_CON | M_FND | M_GET; }
         static HT h( int key ) { return HT( HT( key ) << Shift ); }
+        // the key -> hash mapping must stay injective (Feldman requires unique hashes): keys are limited to the bits left above the shift
+        static unsigned max_keys() { return ( sizeof( HT ) * 8 - Shift ) >= 20 ? ( 1u << 20 ) : ( 1u << ( sizeof( HT ) * 8 - Shift )); }
 
         template <class R> typename std::enable_if<std::is_void<R>::value, bool>::type do_extract( int key, int64_t& seen )
         {
